@@ -8,7 +8,7 @@
    contains no strict array with >= 1 element -- the library's strict array is keyed (recorded
    finding strict-array-keyed-layout, c06_strict_refuted below), everything else is covered.
    Trees are otherwise arbitrary: any nesting, key order, repeated/empty keys, any ECMA count. *)
-From Verif Require Import Lib.Base Lib.Sx Model.Amf0 Proofs.Amf0 Proofs.Amf0Spec Proofs.Amf0Fast.
+From Verif Require Import Lib.Base Lib.Sx Model.Amf0 Proofs.Amf0 Proofs.Amf0Spec Proofs.Amf0Fast Proofs.Amf0Hist.
 From Verif Require Import Gen.Gen_amf0.
 Open Scope N_scope.
 
@@ -72,6 +72,17 @@ Proof. vm_compute. repeat split; reflexivity. Qed.
 Theorem c06_model_fast p v : decode_fast p = decode p /\ enc_fast v = enc v.
 Proof. split; [exact (decf_eq p)|exact (enc_fast_eq v)]. Qed.
 
+(* 6. After ANY history of API calls on an object graph (Model/Amf0.v h_run: new container, Set,
+   MarshalBinary, UnmarshalBinary into fresh containers and ON objects of the graph, including
+   calls REJECTED part-way, which leave the header count and the salvaged elements behind), what
+   any object of the graph marshals to is read by the specification's decoder as that object's
+   current value (no non-empty strict array in it; fewer than 2^32 properties per container). *)
+Theorem c06_history_lib_to_spec ops path sub rest :
+  forallb op_wf ops = true ->
+  g_at path (h_run g0 ops) = Some sub -> gsmall sub = true -> no_strictb (g_view sub) = true ->
+  spec_decode (fst (g_marshal sub) ++ rest) = Some (g_view sub, rest).
+Proof. exact (history_lib_to_spec ops path sub rest). Qed.
+
 (* non-vacuity of 1./2.: a nested tree with a repeated key, an empty key, an ECMA array whose
    count differs from its length and an empty strict array *)
 Example c06_nonvacuous :
@@ -95,3 +106,4 @@ Print Assumptions c06_markers.
 Print Assumptions c06_markers_generated.
 Print Assumptions c06_strict_refuted.
 Print Assumptions c06_model_fast.
+Print Assumptions c06_history_lib_to_spec.
